@@ -96,4 +96,62 @@ static inline _Bool sp_D_shape(struct vec_vec_I D)
   }
   return 1;
 }
+/* ---- expression queries (bounds / distance / equates): what they must agree with ---- */
+/* sign of a(x) - v on the ghost valuation */
+static inline int sp_val_sign(struct smt_lin a, WIDE_t v)
+{
+  WIDE_t num = (WIDE_t)a.known_term.num, den = (WIDE_t)a.known_term.den;
+  for (U_t t = 0; t < XT_NTP; t++)
+  {
+    struct smt_rational c = sp_coeff(a, t);
+    num = num * (WIDE_t)c.den + (WIDE_t)c.num * (WIDE_t)xt_x[t] * den;
+    den = den * (WIDE_t)c.den;
+  }
+  num = num - v * den;
+  return num < 0 ? -1 : (num > 0 ? 1 : 0);
+}
+/* the interval an integer difference expression k, c*x + k or c*(x - y) + k ranges over, as derived from the variable-level
+ * distances:  x in [-D[x][0], D[0][x]],  x - y in [-D[x][y], D[y][x]];  ok = 0 for every other expression */
+struct sp_bounds { _Bool ok; WIDE_t lo; WIDE_t hi; };
+static inline struct sp_bounds sp_bounds_of(struct vec_vec_I D, struct smt_lin l)
+{
+  struct sp_bounds r; r.ok = 0; r.lo = 0; r.hi = 0;
+  if (l.known_term.den != 1) return r;
+  WIDE_t k = (WIDE_t)l.known_term.num;
+  U_t n = 0, x = 0, y = 0;
+  WIDE_t cx = 0, cy = 0;
+  for (U_t t = 0; t < XT_NTP; t++)
+  {
+    struct smt_rational c = sp_coeff(l, t);
+    if (c.num != 0)
+    {
+      if (c.den != 1) return r;
+      if (n == 0) { x = t; cx = (WIDE_t)c.num; } else { y = t; cy = (WIDE_t)c.num; }
+      n++;
+    }
+  }
+  if (n == 0) { r.ok = 1; r.lo = k; r.hi = k; return r; }
+  WIDE_t rlo, rhi;
+  if (n == 1) { rlo = -(WIDE_t)D.e[x].e[0]; rhi = (WIDE_t)D.e[0].e[x]; }
+  else if (n == 2 && cx == -cy) { rlo = -(WIDE_t)D.e[x].e[y]; rhi = (WIDE_t)D.e[y].e[x]; }
+  else return r;
+  r.ok = 1;
+  r.lo = (cx > 0 ? cx * rlo : cx * rhi) + k;
+  r.hi = (cx > 0 ? cx * rhi : cx * rlo) + k;
+  return r;
+}
+static inline _Bool sp_q_rec(struct vec_vec_I D)
+{
+  for (U_t i = 0; i < XT_NTP; i++)
+    for (U_t j = 0; j < XT_NTP; j++) xt_rec(300 + (int)(i * XT_NTP + j), D.e[i].e[j]);
+  for (U_t i = 0; i < XT_NTP; i++) xt_rec(400 + (int)i, xt_x[i]);
+  return 1;
+}
+/* every distance within [-m, m]: keeps c * D + k inside the narrow I_t of the quick tier */
+static inline _Bool sp_D_within(struct vec_vec_I D, I_t m)
+{
+  for (U_t i = 0; i < XT_NTP; i++)
+    for (U_t j = 0; j < XT_NTP; j++) if (D.e[i].e[j] < -m || D.e[i].e[j] > m) return 0;
+  return 1;
+}
 #endif
